@@ -91,6 +91,8 @@ func init() {
 			"allocation is screened with runtime/metrics (large allocations are counted at once, small ones with span-granularity lag), every suspect and one decode in 16 is measured exactly with runtime.MemStats; allowance = 64 KiB + K_T per input byte with K_T = 64 + 16 x the largest slice element / map entry / pointee size reachable in the reader's type",
 			"a decode that exceeds 64 + 16 x len(input) steps at the instrumented loops is a hang; loops without a hook are covered by the parent's watchdog with confirmation in an isolated process",
 			"inputs are damaged valid records and short blocks, not arbitrary long byte strings or coverage-guided inputs (that part of the quantifier is outside this technique)",
+			"growth is sampled, not proved: the scale probe compares cost per decode step at 256..4096 (thorough 16384) elements using the worker thread's CPU time; the deep probe feeds megabyte inputs of a few regular shapes (flat repetitions, self-nesting)",
+			"quick tier only: the deep probe lowers Go's cap on a goroutine stack from 1 GB to 64 MB (debug.SetMaxStack) and scales its inputs down accordingly; the thorough tier runs under the default cap",
 		},
 		Components: storeComponents,
 	}
